@@ -145,6 +145,21 @@ func nativeOp(g *gor, db **sqlittle.DB, w []string) string {
 		var cs []string
 		cs, err = (*db).Columns(w[1])
 		d.add(strings.Join(cs, ","))
+	case "def":
+		// the low level Table.Def() (the parsed CREATE TABLE statement) of a table
+		ld := sqlittle.VerifDatabase(*db)
+		if lerr := ld.RLock(); lerr != nil {
+			err = lerr
+			break
+		}
+		tb, terr := ld.Table(w[1])
+		if terr == nil {
+			st, derr := tb.Def()
+			d.add(fmt.Sprintf("%#v", st))
+			terr = derr
+		}
+		ld.RUnlock()
+		err = terr
 	case "parse":
 		// sql.Parse on a statement given as hex: the same text parses to the same statement (or the same error) whatever
 		// other goroutines parse at the same time and whatever was parsed before
